@@ -122,14 +122,20 @@ def run_cmd_on(text, cmd, ext='.smt2'):
 
 def lag_problems(ev):
     """C06: an adopted input is on disk before ddSMT goes on to the next result (the file never lags behind the adopted input)."""
-    pending = None
+    pending = hpending = None
     for e in ev:
         if not e.get('main'):
             continue
         if e['ev'] == 'ddmin_update':
             pending = e['digest']
+        elif e['ev'] == 'consume' and e.get('success'):
+            hpending = e['cand']
         elif e['ev'] == 'write_done':
-            pending = None
+            pending = hpending = None
+        elif e['ev'] == 'redup' and hpending is not None:
+            # hierarchical: the bookkeeping of an adoption (re-duplication, loop check; seconds on a large input) starts
+            return [f"the input {hpending} was adopted (and announced) but the output file is rewritten only after the bookkeeping "
+                    f"(an interrupt in between leaves an older input, or no file)"]
         elif e['ev'] in ('ddmin_progress', 'ddmin_task') and pending is not None and e.get('thread') == 'MainThread':
             return [f"the input {pending} was adopted but the output file had not been rewritten when ddSMT went on to the next result "
                     f"(an interrupt or a reader at that moment finds an older input, or no file)"]
@@ -138,7 +144,7 @@ def lag_problems(ev):
 
 def analyse(run):
     """Property-level facts of one recorded run.  Returns dict of lists of problems keyed by property id."""
-    P = {k: [] for k in ('C01', 'C04', 'C05', 'C06', 'C13', 'C14')}
+    P = {k: [] for k in ('C01', 'C04', 'C05', 'C06', 'C13', 'C14', 'C15')}
     ev = run.events
     if run.hung:
         P['C04'].append('run did not finish within the harness time limit')
@@ -226,6 +232,12 @@ def analyse(run):
             P['C01'].append('an output file was written although no candidate was ever accepted')
     if not run.input_unmodified:
         P['C01'].append('the input file was modified')
+    # C15: no candidate declares a symbol a second time (unless the input itself does)
+    given = set(d_ for e in ev if e['ev'] == 'parsed' for d_ in e.get('dup_decl', []))
+    for e in ev:
+        if e['ev'] == 'check' and set(e.get('dup_decl', [])) - given:
+            P['C15'].append(f"a candidate handed to the command declares {sorted(set(e['dup_decl']) - given)} twice (digest {e['digest']})")
+            break
     # C13: every sweep / task generator starts from a tree
     for e in ev:
         if e['ev'] in ('producer', 'taskgen') and e.get('dup_ids'):
